@@ -68,6 +68,16 @@ static void mutex_gen(mvsim_rng *r, long *p, int tier) {
   /* threads that spin on trylock WITHOUT yielding (legal: they occupy their worker, nothing else).  At most
      nworkers-1 of them, so that one worker is always free to go idle and steal a descheduled holder. */
   p[M_SPINNERS] = (p[Q_NWORKERS] >= 2 && mvh_chance(r, 350)) ? mvh_range(r, 1, p[Q_NWORKERS] - 1 > 3 ? 3 : p[Q_NWORKERS] - 1) : 0;
+  /* ... and no timedlock pollers next to them: myth_mutex_timedlock yields local-first, so two pollers on the one
+     free worker hand it to each other for ever and never steal the holder -- a deadlock of the PROGRAM under
+     non-preemptive scheduling, not of the library (first version of this shape raised exactly that false HANG) */
+  if (p[M_SPINNERS]) p[M_TIMED_PM] = 0;
+  /* occasionally a crowd of lockers on one mutex (waiter count in the state word, long sleep queue) */
+  if (mvh_chance(r, tier ? 40 : 20)) {
+    static const long crowd[] = { 63, 64, 65, 127, 128, 129, 255, 256, 257, 300, 512, 1000 };
+    p[M_NTHREADS] = mvh_pick(r, crowd, 12); p[M_NACQ] = mvh_range(r, 1, 2); p[M_NMUTEX] = 1; p[M_TRY_PM] = 0; p[M_TIMED_PM] = 0;
+    p[M_CS_POINTS] = mvh_range(r, 0, 1); p[Q_QSIZE] = 2 * p[M_NTHREADS] + 64; p[Q_YIELD_PM] = 100;
+  }
 }
 static void *helper_fn(void *a) { mvsim_user_point(); return a; }
 
@@ -80,7 +90,7 @@ static void *mutex_thread(void *arg) {
     int mode = 0;
     if ((int)((h >> 10) % 1000) < P[M_TRY_PM]) mode = 1;
     else if ((int)((h >> 24) % 1000) < P[M_TIMED_PM]) mode = 2;
-    int spinner = t < P[M_SPINNERS] && P[M_SPINNERS] <= P[Q_NWORKERS] - 1;
+    int spinner = t < P[M_SPINNERS] && P[M_SPINNERS] <= P[Q_NWORKERS] - 1 && P[M_TIMED_PM] == 0;
     if (spinner) mode = 1;
     YIELD(h >> 3);
     if (mode == 0) {
@@ -143,6 +153,7 @@ static void *mutex_thread(void *arg) {
 static void mutex_run(const long *p, mvsim_runcfg *cfg, mvsim_runstats *st) {
   P = p;
   int n = (int)p[M_NTHREADS]; if (n > MAXT) n = MAXT;
+  if (n > 40) { cfg->budget1 += 600UL * (uint64_t)n * (uint64_t)p[M_NACQ]; cfg->budget2 += 6000UL * (uint64_t)n * (uint64_t)p[M_NACQ]; }
   memset((void *)occ, 0, sizeof occ); memset((void *)interest, 0, sizeof interest);
   memset((void *)enter_events, 0, sizeof enter_events); memset((void *)acq_count, 0, sizeof acq_count);
   memset(acq_by_thread, 0, sizeof acq_by_thread);
@@ -365,6 +376,12 @@ static void barrier_gen(mvsim_rng *r, long *p, int tier) {
   p[B_ROUNDS] = mvh_range(r, 1, tier ? 20 : 8);
   p[B_RACER] = mvh_chance(r, 500) ? (long)mvsim_rng_below(r, (uint64_t)p[B_N]) : -1;
   gen_common(r, p, p[B_N]);
+  /* occasionally a crowd (batching / counter-width boundaries in the wake-up path) */
+  if (mvh_chance(r, tier ? 50 : 25)) {
+    static const long crowd[] = { 63, 64, 65, 127, 128, 129, 255, 256, 257, 300, 511, 512, 513, 1000 };
+    p[B_N] = mvh_pick(r, crowd, 14); p[B_ROUNDS] = mvh_range(r, 1, 3); p[Q_QSIZE] = 2 * p[B_N] + 64; p[Q_YIELD_PM] = 100;
+    p[B_RACER] = mvh_chance(r, 500) ? (long)mvsim_rng_below(r, (uint64_t)p[B_N]) : -1;
+  }
 }
 static void *barrier_thread(void *arg) {
   long t = (long)arg;
@@ -382,7 +399,8 @@ static void *barrier_thread(void *arg) {
 static void barrier_run(const long *p, mvsim_runcfg *cfg, mvsim_runstats *st) {
   P = p;
   memset((void *)arrivals, 0, sizeof arrivals); memset((void *)serials, 0, sizeof serials); memset((void *)passed, 0, sizeof passed);
-  int n = (int)p[B_N];
+  int n = (int)p[B_N]; if (n > MAXT - 2) n = MAXT - 2;
+  if (n > 40) { cfg->budget1 += 400UL * (uint64_t)n * (uint64_t)p[B_ROUNDS]; cfg->budget2 += 4000UL * (uint64_t)n * (uint64_t)p[B_ROUNDS]; }
   wl_begin(cfg, p[Q_NWORKERS], 32, p[Q_QSIZE], (int)p[Q_PFIRST]);
   myth_barrier_init(&BAR, 0, n);
   spawn_all(n, barrier_thread);
@@ -413,6 +431,12 @@ static void jc_gen(mvsim_rng *r, long *p, int tier) {
   p[J_NDEC] = mvh_range(r, 1, 6);
   p[J_LATE] = mvh_range(r, 0, 2);
   gen_common(r, p, 20);
+  /* occasionally many decrements and/or a crowd of waiters (field widths of the packed state word) */
+  if (mvh_chance(r, tier ? 50 : 25)) {
+    static const long bign[] = { 65, 127, 128, 129, 255, 256, 257, 1000, 1023, 1024, 1025, 4095, 4096, 4097 };
+    static const long crowd[] = { 0, 1, 8, 31, 32, 33, 64, 127, 128, 129, 255, 256, 257, 300 };
+    p[J_N] = mvh_pick(r, bign, 14); p[J_NWAIT] = mvh_pick(r, crowd, 14); p[Q_QSIZE] = 2 * p[J_NWAIT] + 80; p[Q_YIELD_PM] = 100;
+  }
 }
 static void *jc_waiter(void *arg) {
   long t = (long)arg;
@@ -446,6 +470,8 @@ static void jc_run(const long *p, mvsim_runcfg *cfg, mvsim_runstats *st) {
   P = p;
   dec_invoked = 0; waiters_released = 0;
   int nw = (int)p[J_NWAIT], nd = (int)(p[J_NDEC] < 1 ? 1 : p[J_NDEC]);
+  if (nw > MAXT - 10) nw = MAXT - 10;
+  if (nw > 16 || p[J_N] > 64) { cfg->budget1 += 400UL * (uint64_t)(nw + p[J_N]); cfg->budget2 += 4000UL * (uint64_t)(nw + p[J_N]); }
   wl_begin(cfg, p[Q_NWORKERS], 32, p[Q_QSIZE], (int)p[Q_PFIRST]);
   myth_join_counter_init(&JC, 0, p[J_N]);
   /* interleave creation of waiters and decrementers */
